@@ -145,6 +145,12 @@ def h_attached(ctx, kind, phase, spec, life, add_adj, nT, per_species_x):
             got = _first(getter(T=T, **kw))
             want = _first(bgetter(T=T)) + _expected_extra(ctx, desc, n_adj, q, T, P, xs)
             ctx.eq('%s = bare + sum of attached contributions' % q, got, want)
+            if per_species_x and q in ('HoRT', 'GoRT'):
+                # the order in which the caller lists the per-species blocks must not matter (one name is a suffix of the other)
+                kw_rev = dict(P=P)
+                kw_rev['O(S)_kwargs'] = {'x': xs['O(S)']}
+                kw_rev['%s_kwargs' % COV_J] = {'x': xs[COV_J]}
+                ctx.eq('%s = bare + sum of attached contributions (per-species blocks listed in the other order)' % q, _first(getter(T=T, **kw_rev)), want)
         else:
             got = getter(T=np_array(ctx, Ts), **kw)
             ctx.true('%s array: one value per temperature' % q, len(got) == nT)
